@@ -155,7 +155,7 @@ def main(argv=None):
         if a.func:
             load_contracts()
             r = verify_function(a.func, [a.pid] if a.pid != '-' else None)
-            print(json.dumps(r, indent=1)[:20000])
+            print(json.dumps(r))
             return 0
         if a.replay:
             from pyvc import report
